@@ -170,4 +170,7 @@ theorem relEntropyGo_spec (p q : List ℝ) (kl : ℝ) :
     relEntropyGo p q kl = if (∃ ab ∈ List.zip p q, 0 < ab.1 ∧ ab.2 = 0) then none else some (kl + (klTerms p q).sum) :=
   Vec.relEntropyGo_spec p q kl
 
+theorem isum_eq (v : List Int) : isum v = v.sum := Vec.isum_eq v
+theorem idot_eq (v w : List Int) : idot v w = (List.zipWith (· * ·) v w).sum := Vec.idot_eq v w
+
 end EaselModel.Props.C20
